@@ -194,6 +194,33 @@ func ruleENG10(c *Ctx) {
 		}
 	}
 	c.Check(okC, "DataContext.Complete sets what IsComplete returns", "-", "Complete stores true to the field returned by IsComplete on every path", "DataContext.Complete does not (always) set the flag that IsComplete returns")
+	// nothing else on the execution call tree writes that flag (a top-level assignment is implemented as DataContext.Add:
+	// if Add cleared the flag, `Complete(); Total = Total + 1;` would resume the run)
+	if cm != nil && ic != nil {
+		rets := returnsOf(ic)
+		if len(rets) == 1 && len(rets[0].Results) == 1 {
+			if flag, _ := fieldLoad(rets[0].Results[0]); flag != nil {
+				var bad []string
+				for f := range c.reachableModuleFuncs([]*ssa.Function{fn}, true) {
+					if f == cm {
+						continue
+					}
+					for _, b := range f.Blocks {
+						for _, in := range b.Instrs {
+							if sf, base, _ := fieldStore(in); sf == flag {
+								if _, fresh := base.(*ssa.Alloc); fresh {
+									continue
+								}
+								bad = append(bad, fnName(f)+" at "+p.InstrPos(in))
+							}
+						}
+					}
+				}
+				sort.Strings(bad)
+				c.Check(len(bad) == 0, "completion flag is written only by DataContext.Complete during a run", "-", "no other store reachable from ExecuteWithContext", "the completion flag is also written by "+strings.Join(bad, "; ")+": an action after Complete() (e.g. a top-level assignment, which goes through DataContext.Add) can clear it and the run goes on firing")
+			}
+		}
+	}
 	// BuiltInFunctions.Complete calls it on gf.DataContext
 	bc := p.Method("ast", "BuiltInFunctions", "Complete")
 	okB := false
